@@ -295,3 +295,42 @@ Example C07_ra_wellformed_inhabited :
     length junk = EthMaxSize /\ send_ra c pf rd (dm, di) junk = Ok [fr].
 Proof. exact ra_wf_inhabited. Qed.
 Print Assumptions C07_ra_wellformed_inhabited.
+
+(* ================================================================ *)
+(* refutation witnesses of the remaining recorded findings *)
+From PV Require Import Proofs.SendRefuted.
+
+(* finding udp6-checksum-zero: IPv6 branch of sendMDNS; well-formed except for the mandatory UDP checksum *)
+Theorem C07_udp6_checksum_refuted :
+  exists c buf sm si dm di port fr,
+    mac_ok (host_mac c) /\ ip6_ok si /\ mac_ok dm /\ ip6_ok di /\ bytes_ok buf /\
+    send_mdns c buf (sm, si) (dm, di) port = Ok [fr] /\
+    wf_udp6 (host_mac c) dm si di port port (beq buf) fr = false /\
+    wf_udp6_nocks (host_mac c) dm si di port port (beq buf) fr = true.
+Proof. exact udp6_refuted. Qed.
+Print Assumptions C07_udp6_checksum_refuted.
+
+(* finding discover-unset-ciaddr-keeps-stale-buffer-bytes *)
+Theorem C07_discover_stale_ciaddr_refuted :
+  exists c ch xid opts junk fr,
+    mac_ok (host_mac c) /\ mac_ok ch /\ length junk = EthMaxSize /\
+    send_discover c (Some ch) [] (Some xid) opts junk = Ok [fr] /\
+    wf_udp4 (host_mac c) (router_mac c) (host_ip4 c) (router_ip4 c) 68 67
+      (wf_dhcp_client ch [0;0;0;0] (Some xid) opts) false fr = false /\
+    wf_udp4 (host_mac c) (router_mac c) (host_ip4 c) (router_ip4 c) 68 67
+      (wf_dhcp_client ch (sub fr 54 4) (Some xid) opts) false fr = true.
+Proof. exact discover_stale_ciaddr_refuted. Qed.
+Print Assumptions C07_discover_stale_ciaddr_refuted.
+
+(* finding dhcp-release-without-client-and-server-id *)
+Theorem C07_release_options_refuted :
+  exists c ch cid sip cip xid junk fr,
+    mac_ok (host_mac c) /\ mac_ok ch /\ ip4_ok sip /\ ip4_ok cip /\ length junk = EthMaxSize /\
+    send_decline_release c (Some ch) cip xid [(53, [7])] junk junk = Ok [fr] /\
+    wf_udp4 (host_mac c) (router_mac c) (host_ip4 c) (router_ip4 c) 68 67
+      (wf_dhcp_client ch cip (Some xid) [(61, cid); (54, sip); (56, [110;101;116;102;105;108;116;101;114;32;114;101;108;101;97;115;101]); (53, [7])])
+      false fr = false /\
+    wf_udp4 (host_mac c) (router_mac c) (host_ip4 c) (router_ip4 c) 68 67
+      (wf_dhcp_client ch cip (Some xid) [(53, [7])]) false fr = true.
+Proof. exact release_options_refuted. Qed.
+Print Assumptions C07_release_options_refuted.
